@@ -164,10 +164,9 @@ func (e *Exec) doSelect(cases []selCase, hasDefault bool) (int, any, bool) {
 	}
 	pick := ready[0]
 	if len(ready) > 1 {
+		// Go picks uniformly among the ready cases: none of them is "the default", so every one of them is
+		// explored at no cost (a deviation budget of 0 still covers both outcomes)
 		cost := make([]int8, len(ready))
-		for i := 1; i < len(ready); i++ {
-			cost[i] = 1
-		}
 		pick = ready[e.decide("select", len(ready), cost, o.desc())]
 	}
 	c := cases[pick]
